@@ -20,6 +20,7 @@ FAMILIES = [
     # engine, family, quick n, thorough n
     ('streamsim', 'c11', 60, 400), ('streamsim', 'c12', 60, 400), ('streamsim', 'c12-trunc', 6, 30),
     ('streamsim', 'c12-tail', 30, 150), ('streamsim', 'c17', 40, 300), ('streamsim', 'c17-stream', 40, 300),
+    ('streamsim', 'c17-multi', 40, 300), ('streamsim', 'c12-enum', 3, 20),
     ('histsim', 'c13', 30, 220), ('histsim', 'c13-io', 30, 220), ('histsim', 'c08', 30, 220),
     ('defsim', 'c20', 30, 220), ('defsim', 'c20-redef', 30, 220), ('defsim', 'c20-ncep', 30, 220),
     ('defsim', 'c08-def', 30, 220),
